@@ -207,6 +207,47 @@ SyncStep(r) ==
   \/ SyncAbort(r) \/ PushLostReply(r) \/ SnapLostReply(r)
 
 -----------------------------------------------------------------------------
+(* The clauses of the replica-local properties, as predicates over one step    *)
+(* from replica state d to e (used by MCReplica as checked history predicates  *)
+(* and by ObsSync at the property level).                                     *)
+
+RECURSIVE ValidFrom(_,_)     \* every operation valid in the state it is applied to
+ValidFrom(ts, ops) ==
+  IF ops = <<>> THEN TRUE
+  ELSE LET o == Head(ops)
+           ok == CASE o.k = "C" -> ~ts[o.u].ex
+                   [] o.k = "D" -> ts[o.u].ex /\ o.o = ts[o.u].m
+                   [] o.k = "U" -> ts[o.u].ex /\ o.o[o.p] = ts[o.u].m[o.p]
+                   [] OTHER -> TRUE
+       IN ok /\ ValidFrom(Apply(ts, o), Tail(ops))
+
+
+(* C07 clauses for one undo step from d to e with list u and result res *)
+UndoClauses(d, e, u, res) ==
+  IF u # <<>> /\ IsSuffix(u, d.ops)
+  THEN LET pre == SubSeq(d.ops, 1, Len(d.ops) - Len(u))
+           before == ApplyAll(Replay(chain, d.base), pre)
+       IN \* for a valid sequence of changes on a replica that satisfies the replica invariant
+          (ValidFrom(before, u) /\ ApplyAll(before, u) = d.tasks
+             /\ \E i \in DOMAIN u : u[i].k # "P") =>
+             /\ res = "true"
+             /\ e.tasks = before               \* exactly the earlier content
+             /\ e.ops = pre                    \* exactly those operations withdrawn
+  ELSE res = "false" /\ e = d                  \* not the most recent ones: nothing changes
+
+
+RebuildClauses(d, e, renumber) ==
+  /\ WSExactlyPending(e) /\ WSNoTrailingGap(e)
+  /\ IF renumber THEN WSCompact(d, e) ELSE WSStable(d, e)
+
+
+(* C15: a commit only appends to the working set *)
+CommitAppendsOnly(d, e) ==
+  /\ Len(e.ws) >= Len(d.ws)
+  /\ SubSeq(e.ws, 1, Len(d.ws)) = d.ws
+  /\ \A i \in (Len(d.ws) + 1)..Len(e.ws) : e.ws[i] # NoVal
+
+-----------------------------------------------------------------------------
 (* Properties.                                                              *)
 
 (* C01/C04/C05: an idle replica's tasks are its last synchronised state     *)
